@@ -170,7 +170,9 @@ Definition ex_run : list event :=
 Example C15_system_nonvacuous : exists st, run (init 0 2) ex_run = Done st /\ quiescent st = true
   /\ cancel_free ex_run = true /\ sent_log st = [(1%nat, [mkTask 0 (-1) []])]
   /\ cancel_free d9_witness = false.
-Proof. eexists. repeat split; vm_compute; reflexivity. Qed.
+Proof.
+  eexists. split; [vm_compute; reflexivity|]. split; [vm_compute; reflexivity|]. split; [reflexivity|]. split; reflexivity.
+Qed.
 
 (* ---- C07_routing (cited by C07) ---- *)
 
